@@ -73,6 +73,24 @@ def make_node(rule_name, word=None, content=VALID, attrs=None, name=None):
     return n
 
 
+EXT = "http://example.org/extension"
+
+
+def decorate(n):
+    """dress a node and its children in everything validation does not look at: a namespace prefix bound in the node's own
+    map to a foreign namespace, qualified extras, tail text.  Content models, content rules and attribute rules speak
+    about names, content, attributes and child names only, so every verdict has to stay what it was"""
+    for i, x in enumerate([n] + list(n.children)):
+        x.add_namespace("x", EXT)
+        x.add_namespace("stmml", "http://www.xml-cml.org/schema/stmml-1.2")
+        if x is not n or i % 2 == 0:
+            x.prefix = "x"
+        x.add_extras("x:note", "v")
+        if x is not n:
+            x.tail = " trailing text "
+    return n
+
+
 def outcome(rule_name, make):
     """Run both validation modes on freshly made nodes.
     -> [(kind, detail), (kind, detail)] with kind in ok / rule / errs / EXC"""
@@ -106,6 +124,25 @@ def outcome(rule_name, make):
                         f"appended {None if got is None else [c.name for c, _ in got]}, a fresh list gets {[c.name for c, _ in fresh]}"))
         except Exception as e:  # noqa
             res.append(("prefilled", "raised " + type(e).__name__ + ": " + str(e)[:150]))
+    # the same node dressed in prefixes / namespace maps / extras / tails: same verdict, same codes
+    if len(res) >= 2 and res[0][0] in ("ok", "rule") and res[1][0] in ("ok", "errs"):
+        dec = []
+        for mode in (0, 1):
+            Node.store.clear()
+            n = decorate(make())
+            errs = [] if mode else None
+            try:
+                validate_under(rule_name, n, errs)
+                dec.append(("ok", None) if not errs else ("errs", [e[0].name for e in errs]))
+            except MetapypeRuleError as e:
+                dec.append(("rule", type(e).__name__))
+            except Exception as e:  # noqa
+                dec.append(("EXC", type(e).__name__ + ": " + str(e)[:120]))
+        plain = [("rule", type(res[0][1]).__name__ if not isinstance(res[0][1], str) else res[0][1]) if res[0][0] == "rule" else res[0],
+                 ("errs", [e[0].name for e in res[1][1]]) if res[1][0] == "errs" else res[1]]
+        while len(res) < 3:
+            res.append(("prefilled", None))
+        res.append(("decorated", None if dec == plain else f"plain node {plain}, the same node with prefixes / extras / tails {dec}"))
     return res
 
 
